@@ -106,7 +106,7 @@ REGISTRY = {
     'C14': ('harness.table', {}),
     'C16': ('harness.web', {}),
     'C17': ('harness.ftp', {}),
-    'C18': ('harness.web', {}),
+    'C18': ('harness.bounded', {}),
     'C19': ('harness.http_stream', {}),
     'C20': ('harness.crawl', {}),
 }
